@@ -12,6 +12,8 @@ NOMATCH_PATCHES = [
     ("typedecl", b"@@\n@@\n-type zzzNope struct{}\n+type zzzYep struct{}\n"),
     ("import-guard", b"@@\nvar x expression\n@@\n import \"zzz/nope\"\n\n-f(x)\n+g(x)\n"),
     ("package-guard", b"@@\nvar x identifier\n@@\n package zzznope\n\n-x\n+y\n"),
+    ("import-guard-expr-name", b"@@\nvar x expression\nvar fmt expression\n@@\n import fmt \"fmt\"\n import os \"zzz/nope\"\n\n-fmt.Println(x)\n+fmt.Print(x)\n"),
+    ("import-guard-expr-name-2", b"@@\nvar x expression\nvar os expression\n@@\n-import os \"os\"\n+import \"zzz/yep\"\n\n-os.Exit(x)\n+yep.Exit(x)\n"),
     ("import-guards", b"@@\nvar x expression\nvar n identifier\n@@\n import n \"zzz/nope\"\n-import \"zzz/nope2\"\n+import \"zzz/yep\"\n\n-n.f(x)\n+yep.g(x)\n"),
     ("two-changes", b"@@\n@@\n-zzzNope()\n+zzzYep()\n\n# second\n@@\n@@\n-zzzNope2\n+zzzYep2\n"),
 ]
